@@ -122,6 +122,9 @@ def verus_lane(pid, tier, cov, ledger, findings, assumptions):
     if not res.get('json_ok') and not diags:
         out['undecided'].append('verus produced no result (rc=%s): %s' % (res['rc'], res['raw_err'][-300:].replace('\n', ' ')))
         return out
+    if vd.get('compile_errors'):
+        out['undecided'].append('the woven file does not compile (nothing was verified): ' + vd['compile_errors'][0])
+        return out
     hard = [d for d in diags if d.fn is None and d.undecided]
     if hard:
         out['undecided'].append('verus front end rejected the woven file: ' + hard[0].message[:200] + ' @ ' + ck.src_loc(vd, hard[0].line))
